@@ -48,6 +48,8 @@ OPS = [
     ("get", "/users/{id}.json", [(PATH, "id")]),  # 23  ResourcePath.get raises KeyError on this segment
     ("delete", "/users", []),  # 24
     ("patch", "/orders/{id}", [(PATH, "id")]),  # 25
+    ("delete", "/cla/{id}", [(PATH, "id")]),  # 26
+    ("get", "/clas/{id}", [(PATH, "id")]),  # 27
 ]
 IDS = ["1", "2", "12", "1s", "", 1, 2]
 STATUSES = [None, 199, 200, 201, 204, 299, 300, 302, 399, 400, 403, 404, 409, 410, 499, 500, 503, 599]
@@ -678,6 +680,12 @@ def prefix_stage(chk, n):
     rng = chk.rng
     pairs = [
         ("/clas/{id}", {"id": "1"}, "/class/{id}", {"id": "1"}),
+        ("/cla/{id}", {"id": "1"}, "/clas/{id}", {"id": "1"}),
+        ("/cla/{id}", {"id": "1"}, "/class/{id}", {"id": "1"}),
+        ("/clas/{id}", {"id": "1"}, "/classs/{id}", {"id": "1"}),
+        ("/users/{id}", {"id": "1"}, "/user/{id}", {"id": "1"}),
+        ("/s/{id}", {"id": "1"}, "//{id}", {"id": "1"}),
+        ("/ss/{id}", {"id": "1"}, "//{id}", {"id": "1"}),
         ("/users/{id}", {"id": 1}, "/users/{id}", {"id": "1"}),
         ("/users/{id}", {"id": "1"}, "/users/{id}", {"id": "12"}),
         ("/users/{id}.json", {"id": "1"}, "/users/{id}", {"id": "1"}),
@@ -695,18 +703,28 @@ def prefix_stage(chk, n):
         pairs.append((lp, lv, rp, rv))
     exprs = [
         f"(is_prefix {cstr(lp)} {c_vars(lv)} {cstr(rp)} {c_vars(rv)}, resource_prefix {cstr(lp)} {c_vars(lv)} {cstr(rp)} {c_vars(rv)}, "
-        f"prefix_region {cstr(lp)} {c_vars(lv)} {cstr(rp)} {c_vars(rv)})"
+        f"prefix_region {cstr(lp)} {c_vars(lv)} {cstr(rp)} {c_vars(rv)}, is_prefix_rstrip {cstr(lp)} {c_vars(lv)} {cstr(rp)} {c_vars(rv)})"
         for lp, lv, rp, rv in pairs
     ]
     model = core.coq_eval(IMPORTS, exprs)
     lenient = 0
-    for (lp, lv, rp, rv), (m, ref, region) in zip(pairs, model):
+    sentinel_hits = 0
+    for (lp, lv, rp, rv), (m, ref, region, old) in zip(pairs, model):
         impl = impl_prefix(lp, lv, rp, rv)
         canon = {"lhs": lp, "lhs_vars": {k: str(v) for k, v in lv.items()}, "rhs": rp, "rhs_vars": {k: str(v) for k, v in rv.items()}}
         chk.seen({"prefix": canon}, "{" in lp + rp or "s" in lp + rp)
         mm = "KeyError" if m is None else m[1]
+        old = "KeyError" if old is None else old[1]
+        if old != mm:
+            sentinel_hits += 1  # the pair tells the removesuffix rule from the rstrip sentinel (segments differing in trailing s's)
         if impl != mm:
-            chk.disagree("_is_prefix_operation vs Model_C18.is_prefix", canon, impl, mm)
+            what = "_is_prefix_operation vs Model_C18.is_prefix"
+            if impl == old:
+                what += " (the implementation follows the rstrip sentinel is_prefix_rstrip: the rule before e735a769, finding C18-F3)"
+            chk.disagree(what, canon, impl, mm)
+            if impl not in ("KeyError", ref):
+                chk.fail("_is_prefix_operation differs from the same-resource-prefix reference", canon, {"impl": impl, "reference": ref},
+                         region=None if region else "prefix_plural_s")  # fmt: skip
             continue
         chk.count(f"prefix:{impl}")
         # the heuristic against the reference "same resource prefix"
@@ -720,8 +738,9 @@ def prefix_stage(chk, n):
             if region:
                 chk.disagree("is_prefix differs from resource_prefix inside prefix_region (theorem C18_prefix_is_resource_prefix_partial)", canon, impl, ref)
             else:
-                chk.fail("_is_prefix_operation differs from the same-resource-prefix reference", canon, {"impl": impl, "reference": ref}, region="prefix_heuristic")
-    chk.stages["correspondence_is_prefix"] = {"pairs": len(pairs), "differ_from_reference_in_region": lenient}
+                chk.fail("_is_prefix_operation differs from the same-resource-prefix reference", canon, {"impl": impl, "reference": ref}, region="prefix_plural_s")
+    chk.stages["correspondence_is_prefix"] = {"pairs": len(pairs), "differ_from_reference_in_region": lenient,
+                                              "pairs_where_rstrip_sentinel_differs_from_model": sentinel_hits}  # fmt: skip
 
 
 # ----------------------------------------------------------------------------------------
@@ -790,12 +809,12 @@ def compare_batch(chk, batch, stage, oracle=True, light=False):
         if uaf_rep and not allowed:
             if in_regions:
                 chk.disagree("use_after_free accuses outside every region (theorem C18_uaf_partial)", canon, impl["uaf"], "not allowed")
-            region = None if in_regions else ("uaf_parent_status_unsound" if not bits["delete_agrees_with_parent"] else "prefix_heuristic")
+            region = None if in_regions else ("uaf_parent_status_unsound" if not bits["delete_agrees_with_parent"] else "prefix_plural_s")
             chk.fail("use_after_free reported without an earlier successful DELETE of the same resource", canon, impl["uaf"], region=region)
         if required and not uaf_rep:
             if in_regions:
                 chk.disagree("use_after_free silent outside every region (theorem C18_uaf_partial)", canon, impl["uaf"], "required")
-            region = None if in_regions else ("uaf_parent_status_missed" if not bits["delete_agrees_with_parent"] else "prefix_heuristic")
+            region = None if in_regions else ("uaf_parent_status_missed" if not bits["delete_agrees_with_parent"] else "prefix_plural_s")
             chk.fail("use_after_free not reported after a successful DELETE of the same resource", canon, impl["uaf"], region=region)
         if impl["avail"][0] == "reported" and not a_allowed:
             if not bits["parent_not_3xx"]:
@@ -803,7 +822,7 @@ def compare_batch(chk, batch, stage, oracle=True, light=False):
             elif not bits["override_faithful"]:
                 region = "override_not_link"
             elif not bits["prefix_region_all"]:
-                region = "prefix_heuristic"
+                region = "prefix_plural_s"
             else:
                 region = None
                 chk.disagree("ensure_resource_availability accuses outside every region (theorem C18_avail_sound_partial)", canon, impl["avail"], "not allowed")
@@ -817,8 +836,9 @@ CORPUS_BUILTIN = [
     ([mk(0, status=201), mk(2, parent=0, status=404, linked=[(PATH, "id")]), mk(1, parent=1, status=200, linked=[(PATH, "id")])], 2, 200),
     # F2: root DELETE
     ([mk(2, status=204), mk(1, parent=0, status=200, linked=[(PATH, "id")])], 1, 200),
-    # F3: /clas vs /class
+    # F3 (fixed by e735a769): /clas vs /class is left alone; F7: /cla vs /clas is still one resource
     ([mk(14, status=201), mk(13, parent=0, status=204), mk(12, parent=1, status=200)], 2, 200),
+    ([mk(14, status=201), mk(26, parent=0, status=204), mk(27, parent=1, status=200)], 2, 200),
     # F4: checked node in the middle of a chain
     ([mk(0, status=201), mk(1, parent=0), mk(2, parent=1, status=204), mk(1, parent=0)], 1, 200),
     # availability: canonical, after a 3xx POST, after a successful DELETE, hand-built child
@@ -853,7 +873,7 @@ def run(chk: core.Check):
         "recorder ids are distinct (dict keys); parent cycles are outside the model's domain (the real root climb does not terminate on them)",
     ]
     chk.rule = (
-        "histories drawn from one PRNG (VERIF_SEED): 1-8 nodes over 26 operations (2 collections x ids in the core universe; nested resources, "
+        "histories drawn from one PRNG (VERIF_SEED): 1-8 nodes over 28 operations (2 collections x ids in the core universe; nested resources, "
         "singular/plural and /class-/clas-/cla collections, trailing slashes, differently named identifiers, a query parameter, an unresolvable "
         "identifier segment in the wide universe), ids incl. prefixes of each other and int/str twins, 16 statuses incl. none, parents among earlier "
         "nodes / none / dangling, containers explicit / generated / generated then mutated / absent; checked node = last (75%) or any; "
